@@ -83,6 +83,21 @@ func genFmtCase(t *rapid.T, disagree bool) FmtCase {
 	}
 	g := ragen.GenProgram(t, o)
 	c.Lines = g.Prog.Main
+	// occasionally wrap everything in 4..8 further blocks: indentation must keep growing by two per level
+	if rapid.IntRange(0, 7).Draw(t, "deep") == 0 {
+		extra := rapid.IntRange(4, 8).Draw(t, "deeplevels")
+		var wrapped []ragen.Line
+		for i := 0; i < extra; i++ {
+			wrapped = append(wrapped, ragen.Line{K: ragen.KAStart, Ind: rapid.SampledFrom([]string{"", " ", "\t"}).Draw(t, "deepind")})
+		}
+		// flags / prefix / suffix / define lines stay where they are; the rest moves inside
+		wrapped = append(wrapped, c.Lines...)
+		for i := 0; i < extra; i++ {
+			wrapped = append(wrapped, ragen.Line{K: ragen.KEnd})
+		}
+		c.Lines = wrapped
+		g.Labels["nesting>=5"] = true
+	}
 	for n, l := range g.Prog.Files {
 		c.Files[n] = ragen.Print(l, "\n", true)
 	}
